@@ -41,12 +41,18 @@ func TestVX_C10_SM2(t *testing.T) {
 				snap[a.name] = append([]byte{}, a.b...)
 			}
 			calls := map[string]func() string{
-				"DerivePublic": func() string { x, y, e := sm2.DerivePublic(d); return fmt.Sprintf("%x %x %v", x, y, e) },
-				"CheckOnCurve": func() string { return fmt.Sprint(sm2.CheckOnCurve(px, py)) },
+				"DerivePublic":   func() string { x, y, e := sm2.DerivePublic(d); return fmt.Sprintf("%x %x %v", x, y, e) },
+				"CheckOnCurve":   func() string { return fmt.Sprint(sm2.CheckOnCurve(px, py)) },
 				"TestPrivateKey": func() string { return fmt.Sprint(sm2.TestPrivateKey(d)) },
-				"ZA":           func() string { z, e := sm2.ZA(id, px, py); return fmt.Sprintf("%x %v", z, e) },
-				"Sign":         func() string { a, b, e := sm2.Sign(id, px, py, stream(k), d, msg); return fmt.Sprintf("%x %x %v", a, b, e) },
-				"SignZa":       func() string { a, b, e := sm2.SignZa(stream(k), d, za[:], msg); return fmt.Sprintf("%x %x %v", a, b, e) },
+				"ZA":             func() string { z, e := sm2.ZA(id, px, py); return fmt.Sprintf("%x %v", z, e) },
+				"Sign": func() string {
+					a, b, e := sm2.Sign(id, px, py, stream(k), d, msg)
+					return fmt.Sprintf("%x %x %v", a, b, e)
+				},
+				"SignZa": func() string {
+					a, b, e := sm2.SignZa(stream(k), d, za[:], msg)
+					return fmt.Sprintf("%x %x %v", a, b, e)
+				},
 				"SignHashed":   func() string { a, b, e := sm2.SignHashed(stream(k), d, e[:]); return fmt.Sprintf("%x %x %v", a, b, e) },
 				"Verify":       func() string { ok, e := sm2.Verify(id, px, py, msg, sg.R, sg.S); return fmt.Sprint(ok, e) },
 				"VerifyZa":     func() string { ok, e := sm2.VerifyZa(px, py, za[:], msg, sg.R, sg.S); return fmt.Sprint(ok, e) },
